@@ -246,7 +246,19 @@ func ruleC17(w *World, r *Report) {
 	r.floor("R17.2 conversion calls in the Cartesian product", nE, 3)
 	portRuleConsumers(w, r, "R17.5", cart)
 	ruleC17DoneOnce(w, r)
+	ruleC17FreshResult(w, r, cart, complexF)
+	// the expansion loops terminate: no narrow counter that wraps at the end of the port space (and, for C08,
+	// the functions the expansion of a parsed filter runs through)
+	{
+		fs := map[*ssa.Function]bool{complexF: true, cart: true}
+		weng := newEngine(w, r, "R17.2", fs)
+		for _, f := range sortedFuncs(w, fs) {
+			weng.wrapObls(f)
+		}
+	}
 	ruleC17UP4Range(w, r)
+	ruleC04AppIDPerPDR(w, r, "C17", "R17.8")
+	ruleUP4AppKey(w, r, "C17", "R17.9")
 
 	// ---- asComplexTernaryMatches: fast paths, strategy guard and loop shape
 	ruleC17Complex(w, r, complexF, isW, isE, isR, width, exactUn)
@@ -1112,4 +1124,30 @@ func ruleC17UP4Range(w *World, r *Report) {
 		}
 	}
 	r.floor("R17.7 valuations of the port-range guard", n, 6)
+}
+
+// ruleC17FreshResult (R17.10): the expansion of one PDR belongs to that PDR: BESS runs one worker per
+// PDR, each expands and writes its own rules. CreatePortRangeCartesianProduct (and the per-range helpers)
+// return freshly allocated slices, never storage that outlives the call (a package-level scratch buffer
+// makes one worker's entries carry another PDR's ports).
+func ruleC17FreshResult(w *World, r *Report, cart, complexF *ssa.Function) {
+	n := 0
+	for _, f := range []*ssa.Function{cart, complexF} {
+		for k, ret := range returnsOf(f) {
+			v := res(ret, 0)
+			if isNilConst(v) {
+				continue
+			}
+			n++
+			r.check(isFreshSlice(v), "R17.10", w.FuncName(f), fmt.Sprintf("return #%d hands back storage of its own", k+1), w.Pos(ret.Pos()), "freshly allocated", "the result is "+symOf(v).String()+", storage that is shared between calls: concurrent expansions for different PDRs (one BESS worker per PDR) overwrite each other's rules")
+		}
+		allInstrs(f, func(i ssa.Instruction) {
+			if st, ok := i.(*ssa.Store); ok {
+				if g, isG := st.Addr.(*ssa.Global); isG {
+					r.bad("R17.10", w.FuncName(f), "the expansion keeps no state between calls", w.Pos(st.Pos()), "package variable "+g.Name()+" is written by the expansion: its result aliases storage the next call reuses")
+				}
+			}
+		})
+	}
+	r.floor("R17.10 non-nil returns of the expansion functions", n, 2)
 }
